@@ -115,7 +115,7 @@ def run_case(case):
         viol.append(("C02:impl:write-under-ignore-config-raises-%s" % type(e).__name__, case, {"error": repr(e)[:200]}))
     if not case.get("light"):
         try:
-            data_ch = impl_write(records, chunk=5)
+            data_ch = impl_write(records, chunk=5 if len(data) < 65536 else 4093)  # (5 bytes per call on megabytes costs minutes, not coverage)
             if data_ch != data:
                 viol.append(("C02:impl:bytes-depend-on-device:chunked", case, {"plain": data.hex()[:300], "chunked": data_ch.hex()[:300]}))
         except Exception as e:  # noqa: BLE001
@@ -239,7 +239,8 @@ def many_types(n):
 def all_cases(tier, seed):
     yield from golden_cases()
     for n in (255, 256, 257, 511, 512, 513, 600, 1025) + ((4097, 70000) if tier == "thorough" else ()):
-        yield {"kind": "manytypes", "t": "registry", "n": n, "records": many_types(n)}
+        # (beyond the class cache the case costs minutes per wire variant: the largest one is judged on the current variant only)
+        yield dict({"kind": "manytypes", "t": "registry", "n": n, "records": many_types(n)}, **({"light": True} if n > 5000 else {}))
     yield from streamspace.cases(tier, seed)
 
 
